@@ -21,7 +21,7 @@ RULE = ("(i) all 64 edge subsets of the 4-node topological order x 24 textual or
         "result names, side-effect-only sinks returning None, forward references), several programs per process; (iii) random EEMS models; "
         "each followed by a random history of 0-8 run()/result/metadata/to_string/validate_params steps; distinct by (n, edge count, "
         "styles used, has-sink, has-colliding-strings, history step kinds)")
-REQUIRED_COUNTERS = ["edited_programs_run", "foreign_reference_programs", "programs_run", "execute_events", "read_events", "history_steps", "reference_values_compared", "flatten_contract_evaluations", "retry_programs", "grown_programs", "api_built_programs", "inside_execute_records_compared", "large_result_programs", "deep_chain_programs", "program_copies_checked", "programs_evaluated_through_their_commands_only"]
+REQUIRED_COUNTERS = ["odd_result_programs", "edited_programs_run", "foreign_reference_programs", "programs_run", "execute_events", "read_events", "history_steps", "reference_values_compared", "flatten_contract_evaluations", "retry_programs", "grown_programs", "api_built_programs", "inside_execute_records_compared", "large_result_programs", "deep_chain_programs", "program_copies_checked", "programs_evaluated_through_their_commands_only"]
 EXHAUSTIVE_NOTE = "thorough tier enumerates all 64 x 24 x 3 four-command programs"
 ASSUMPTIONS = ["a chain of %d direct references must run under the default recursion limit (the pinned tree manages about 330; deeper chains are left to C13: whatever happens there must be an MPilot error)" % 210,
                "programs that fail to run are judged elsewhere (C12-C14) unless the program is valid by construction",
@@ -290,6 +290,11 @@ def cases(ctx):
         # the same kind of program built through add_command, references given as result names or as Command objects
         nodes = gen_dag(rng, n=rng.randint(2, 10))
         yield {"kind": "apidag", "nodes": nodes, "history": _gen_history(rng, len(nodes)), "rseed": rng.randrange(10 ** 9)}
+    ODD = ["generator", "generator-function-call", "iterator", "map", "dict", "callable", "class", "empty-list", "empty-tuple", "zero", "empty-string", "false",
+           "command-class", "exception-object", "file-like", "none"]
+    for i in range(ctx.n(32, 800)):
+        ks = [ODD[(i * ctx.nshards + ctx.shard + j * 5) % len(ODD)] for j in range(rng.randint(1, 3))]
+        yield {"kind": "oddresult", "kinds": ks, "consumer": rng.choice(["A", "L", "both"]), "reverse": rng.random() < 0.5, "api": rng.random() < 0.4, "read_first": rng.random() < 0.3}
     # results of tens of megabytes (a raster of more than a million float64 cells) as intermediate results
     for i in range(ctx.n(2, 12)):
         k = rng.randint(3, 6)
@@ -428,7 +433,61 @@ def run_history(ctx, prog, names, returned, history, tag, case_detail):
     return kinds
 
 
+def run_oddresult(ctx, case):
+    """Whatever object a command's execute() returns is its result: consumers and readers get that very object, and every
+    command still executes exactly once."""
+    import vprobe
+    from mpilot.program import Program
+    ks = case["kinds"]
+    lines = ['P%d = OddSrc(K = "%s")' % (i, k) for i, k in enumerate(ks)]
+    names = ["P%d" % i for i in range(len(ks))]
+    cons = []
+    if case["consumer"] in ("A", "both"):
+        cons.append("CA = OddOp(A = %s)" % names[0])
+    if case["consumer"] in ("L", "both"):
+        cons.append("CL = OddOp(L = [%s])" % ", ".join(names + names[:1]))
+    lines = (cons + lines) if case["reverse"] else (lines + cons)
+    text = "\n".join(lines)
+    ctx.feature(("oddresult", tuple(ks), case["consumer"], case["reverse"], case["api"], case["read_first"]))
+    del vprobe.EXEC_LOG[:]
+    vprobe.ODD_PRODUCED.clear()
+    vprobe.ODD_RECEIVED.clear()
+    try:
+        prog = Program.from_source(text, libraries=("vprobe",))
+        if case["api"]:
+            built = Program(libraries=("vprobe",))
+            for name, c in prog.commands.items():
+                built.add_command(type(c), name, {a.name: a.value for a in c.arguments})
+            prog = built
+        if case["read_first"]:
+            prog.commands[names[-1]].result
+        prog.run()
+    except Exception as e:
+        ctx.fail("oddresult:raises-%s:%s" % (type(e).__name__, ks[0]), {"error": repr(e)[:200], "text": text})
+        return
+    ctx.count("programs_run")
+    ctx.count("odd_result_programs")
+    log = list(vprobe.EXEC_LOG)
+    want_names = names + [c.split(" ")[0] for c in cons]
+    if sorted(log) != sorted(want_names):
+        ctx.fail("oddresult:not-exactly-once:%s" % ks[0], {"executed": log, "commands": want_names, "text": text})
+        return
+    for i, nm in enumerate(names):
+        ctx.count("reference_values_compared")
+        if prog.commands[nm].result is not vprobe.ODD_PRODUCED.get(nm):
+            ctx.fail("oddresult:result-is-not-what-execute-returned:%s" % ks[i], {"result": repr(prog.commands[nm].result)[:80], "returned": repr(vprobe.ODD_PRODUCED.get(nm))[:80], "text": text})
+            return
+    for cname, got in vprobe.ODD_RECEIVED.items():
+        for src, obj in got:
+            ctx.count("reference_values_compared")
+            if obj is not vprobe.ODD_PRODUCED.get(src):
+                ctx.fail("oddresult:consumer-fed-something-else:%s" % ks[names.index(src)], {"consumer": cname, "producer": src, "got": repr(obj)[:80], "returned": repr(vprobe.ODD_PRODUCED.get(src))[:80], "text": text})
+                return
+
+
 def run_case(ctx, case):
+    if case.get("kind") == "oddresult":
+        return run_oddresult(ctx, case)
     from mpilot.program import Program
     if case["kind"] == "contract":
         return
